@@ -423,6 +423,8 @@ def run_impl(case):
             obs.append(observe(it, src, None))
         out['obs'] = obs
         return out
+    if kind == 'tolerant':
+        return run_tolerant(case)
     if kind == 'invoke':
         return run_invoke(case)
     raise ValueError(kind)
@@ -559,7 +561,7 @@ def coq_case(case, out):
 
 
 def model_dump_term(case):
-    if case['kind'] == 'invoke':
+    if case['kind'] in ('invoke', 'tolerant'):
         return '0'
     return 'it_model_obs %s' % coq_case(case, {'obs': [[], 'gotk', 0], 'val': {'ok': None}, 'pulls': 0})
 
@@ -579,6 +581,8 @@ def direct_oracle(case, out):
         return 'a terminal method altered the spec it was called on'
     if kind == 'all' and out.get('is_list') is False:
         return 'all() did not produce a list'
+    if kind == 'tolerant':
+        return '; '.join(out['problems']) if out.get('problems') else None
     if kind in ('builder', 'invoke') and out.get('earlier_untouched') is False:
         return 'deriving a spec altered a spec it was derived from'
     if kind == 'builder' and out.get('distinct_stacks') is False:
@@ -726,19 +730,62 @@ def corpus():
     ]
 
 
+def tolerant_scenarios():
+    """a consumer that catches the error one item raises in a map / filter stage and keeps pulling: the itertools composition
+    (map / filter objects) carries on with the next item, and so must the pipeline; a stage function that raises StopIteration ends
+    the stream like map(next, ..) does. (name, source, pipeline, the same composition written with itertools)"""
+    import glom
+    Iter = glom.Iter
+    rows = lambda: ['1', '2', 'x', '4', '0', 'y', '6']  # noqa: E731
+    its = lambda: [iter([1]), iter([]), iter([3])]  # noqa: E731
+    return [
+        ('map(int)', rows, lambda: Iter().map(int), lambda src: map(int, src)),
+        ('filter(int != 0)', rows, lambda: Iter().filter(lambda s: int(s) != 0), lambda src: filter(lambda s: int(s) != 0, src)),
+        ('map(int).filter(odd)', rows, lambda: Iter().map(int).filter(lambda z: z % 2), lambda src: filter(lambda z: z % 2, map(int, src))),
+        ('filter(isdigit).map(int)', rows, lambda: Iter().filter(str.isdigit).map(int), lambda src: map(int, filter(str.isdigit, src))),
+        ('map(int).chunked(2)', rows, lambda: Iter().map(int).chunked(2), None),
+        ('map(next) over iterators, one empty', its, lambda: Iter().map(next), lambda src: map(next, src)),
+    ]
+
+
+def run_tolerant(case):
+    import glom
+    name, src, mk, comp = tolerant_scenarios()[case['i']]
+
+    def drain(it):
+        out = []
+        for _ in range(20):
+            try:
+                out.append(next(it))
+            except StopIteration:
+                out.append('<exhausted>')
+                break
+            except Exception as e:
+                out.append('!' + type(e).__name__)
+        return out
+    try:
+        got = drain(iter(glom.glom(src(), mk())))
+    except Exception as e:
+        return {'problems': ['tolerant %s: building the pipeline raised %s' % (name, type(e).__name__)]}
+    if comp is None:
+        return {'problems': []}          # chunked is a generator in any composition: only required not to fail while building
+    want = drain(iter(comp(iter(src()))))
+    return {'problems': [] if got == want else ['tolerant %s: the pipeline gives %r, the itertools composition %r' % (name, got, want)]}
+
+
 def generate(rng, tier):
     n = 1800 if tier == 'quick' else 16000
-    return [gen_case(rng) for _ in range(n)]
+    return [{'kind': 'tolerant', 'i': i} for i in range(len(tolerant_scenarios()))] + [gen_case(rng) for _ in range(n)]
 
 
 def nontrivial(case, out):
-    if case['kind'] in ('builder', 'invoke'):
+    if case['kind'] in ('builder', 'invoke', 'tolerant'):
         return True
     return len(case['stages']) >= 2 or case['src'][0] != 'list' or 'raise' in repr(out)
 
 
 def classify(case, out):
-    if case['kind'] in ('builder', 'invoke'):
+    if case['kind'] in ('builder', 'invoke', 'tolerant'):
         return case['kind']
     end = out.get('obs', [None, out.get('val') and next(iter(out['val'])), 0])[1]
     return '%s:%d-stages:%s:%s' % (case['kind'], len(case['stages']), case['src'][0], str(end).split(':')[0])
